@@ -48,6 +48,7 @@ type taintTarget struct {
 	field *types.Var // struct field, or nil
 	cell  ssa.Value  // Alloc / FreeVar / Global, or nil
 	phi   *ssa.Phi   // loop-carried register, or nil
+	val   ssa.Value  // a slice value filled cell by cell, or nil
 	pos   token.Pos
 	fn    *ssa.Function
 }
@@ -651,6 +652,27 @@ func (oa *orderAnalysis) analyseRegion(r *region) *regionResult {
 				ac := cls(x.Addr)
 				if ac == clsLocal || ac == clsElem {
 					continue
+				}
+				// s[i] = v with a counter i that grows by one per iteration: the cells
+				// are distinct, the slice is filled like a bag (append in another form)
+				if ia, ok := x.Addr.(*ssa.IndexAddr); ok && r.header != nil {
+					if ph, ok := ia.Index.(*ssa.Phi); ok && ph.Block() == r.header {
+						counter := true
+						for i, e := range ph.Edges {
+							if !r.has(r.header.Preds[i]) {
+								continue
+							}
+							bo, ok := e.(*ssa.BinOp)
+							if !ok || bo.Op != token.ADD || bo.X != ssa.Value(ph) || !constInt(bo.Y, 1) {
+								counter = false
+							}
+						}
+						if _, isSlice := ia.X.Type().Underlying().(*types.Slice); counter && isSlice {
+							hasNonIdempotent = true
+							res.taints = append(res.taints, taintTarget{val: ia.X, pos: x.Pos(), fn: fn})
+							continue
+						}
+					}
 				}
 				desc := describeValue(p, x.Addr)
 				isOld := func(v ssa.Value) bool {
